@@ -1,6 +1,6 @@
 SPECIFICATION Spec
 CONSTANT Cfg <- MCCfg12
-CONSTANT Rots = {0}
+CONSTANT Rots = {0, 1}
 CONSTANT Shuffle = FALSE
 CONSTANT Family = "cuts"
 CONSTANT Extra = 0
@@ -23,5 +23,4 @@ PROPERTY InvalidIgnored
 PROPERTY ReturnAtEnd
 PROPERTY ProblemDataConstant
 PROPERTY PlacedOnlyGrows
-CONSTRAINT Bounded
 CHECK_DEADLOCK FALSE
